@@ -255,6 +255,43 @@ class Py:
             self.others.insert(0, e)
             self.ens, self.its, self.kept = new, [], []
             return "ok"
+        if op == "ctorAtomsKw":
+            nA, nC = t.nat(), t.nat()
+            kw = {}
+            tag = t.next()
+            if tag == "cs":
+                cs = t.many(t.conf)
+                rows = {len(c) for c in cs}
+                kw["coords"] = np.array(cs, dtype=float).reshape((len(cs), rows.pop() if rows else nA, 3)) if len(rows) <= 1 else cs
+            elif tag == "c1":
+                c = t.conf()
+                kw["coords"] = np.array(c, dtype=float).reshape((len(c), 3))
+            tag = t.next()
+            if tag == "qs":
+                qs = t.many(t.vec)
+                ks = {len(q) for q in qs}
+                kw["atomic_charges"] = np.array(qs, dtype=float).reshape((len(qs), ks.pop() if ks else nA)) if len(ks) <= 1 else qs
+            elif tag == "q1":
+                kw["atomic_charges"] = np.array(t.vec(), dtype=float)
+            tag = t.next()
+            if tag == "ws":
+                kw["weights"] = np.array(t.vec(), dtype=float)
+            new = self.new_ens(nA, nC, **kw)
+            self.ens, self.its, self.kept = new, [], []
+            return "ok"
+        if op == "readAt":
+            i = int(t.next())
+            as_np = t.i < len(t.ts) and t.next() == "np"
+            return "view " + self.view(e[np.int64(i) if as_np else i])
+        if op == "writeAt":
+            i = int(t.next())
+            c = t.conf()
+            cf = e[i]
+            a = np.array(c, dtype=float).reshape((len(c), 3))
+            if len(c) == 1 and np.shape(cf.coords)[0] != 1:
+                raise ValueError("outside the model: one row for several atoms")
+            cf.coords = a
+            return "ok"
         if op == "reload":
             c, q, w = self.arrays()
             back = self.through_codec(e, "ens")
@@ -636,6 +673,36 @@ def gen_after_reload(rng) -> list:
     return ops + ["serialise", "loop"]
 
 
+def ctor_kw(rng, nA: int, nC: int) -> str:
+    """the constructor with coords= / atomic_charges= / weights= of every broadcastable and non-broadcastable shape"""
+    def rows(bad):
+        return nA + (2 if bad else 0)
+    k = rng.below(8)
+    if k == 0:
+        cs = "-"
+    elif k == 1:
+        cs = f"cs {nC} " + " ".join(conf(rconf(rng, nA)) for _ in range(nC))
+    elif k in (2, 3):
+        cs = "c1 " + conf(rconf(rng, nA))                       # ONE geometry for every conformer
+    elif k == 4:
+        cs = "cs 1 " + conf(rconf(rng, nA))
+    elif k == 5:
+        m = nC + 1 if nC != 0 else 2
+        cs = f"cs {m} " + " ".join(conf(rconf(rng, nA)) for _ in range(m))   # a count numpy cannot broadcast
+    elif k == 6:
+        cs = "c1 " + conf(rconf(rng, rows(True)))
+    else:
+        m = 2 if nC == 1 else max(nC - 1, 2)
+        cs = f"cs {m} " + " ".join(conf(rconf(rng, nA)) for _ in range(m))
+    k = rng.below(6)
+    q = lambda n: vec([rnum(rng) for _ in range(n)])  # noqa: E731
+    qs = ["-", f"qs {nC} " + " ".join(q(nA) for _ in range(nC)), "q1 " + q(nA), "qs 1 " + q(nA), "q1 " + q(rows(True)),
+          f"qs {nC + 1} " + " ".join(q(nA) for _ in range(nC + 1))][k]
+    k = rng.below(5)
+    ws = ["-", "ws " + q(nC), "ws " + q(1), "ws " + q(nC + 1 if nC else 2), "-"][k]
+    return f"ctorAtomsKw {nA} {nC} {cs} {qs} {ws}"
+
+
 def gen_sequence(rng, quick: bool) -> list:
     """a history: starts with a construction; mostly valid operations, some that must fail"""
     r0 = rng.below(14)
@@ -663,6 +730,8 @@ def gen_sequence(rng, quick: bool) -> list:
     else:
         ops.append(f"ctorAtoms {nA} {nC}")
         ops.append("ctorCopy")
+    if k in (0, 3) and rng.chance(1, 2):
+        ops.append(ctor_kw(rng, nA, nC))                 # same n_atoms / n_conformers whether it is accepted or raises
     if rng.chance(1, 2):
         ops += ["serialise"] + (["dump 0"] if rng.chance(1, 3) else [])     # before the first append, whatever nC / nA are
     budget = 6          # scale / rotate steps: keeps every value exactly representable
@@ -720,8 +789,12 @@ def gen_sequence(rng, quick: bool) -> list:
             ops.append(f"writeAtom {rng.below(nC + 1)} {rng.below(nA + 1)} " + vec([rnum(rng) for _ in range(3)]))
         elif r < 76:
             ops.append(f"writeCharge {rng.below(nC + 1)} {rng.below(nA + 1)} {num(rnum(rng))}")
-        elif r < 80:
+        elif r < 78:
             ops.append(f"read {rng.below(nC + 2)}")
+        elif r < 79:
+            ops.append(f"readAt {rng.range(-nC - 1, nC)}" + (" np" if rng.chance(1, 2) else ""))
+        elif r < 80:
+            ops.append(f"writeAt {rng.range(-nC - 1, nC)} " + conf(rconf(rng, nA)))
         elif r < 84:
             f = lambda: rng.choice(["-", "-", str(rng.range(-nC - 2, nC + 2))])  # noqa: E731
             ops.append(f"slice {f()} {f()} {rng.choice(['-', '-', '1', '2', '-1', '-2', '0', '3'])}")
@@ -756,7 +829,9 @@ def exhaustive(quick: bool) -> list:
     alpha = ["append " + g, "append C2 0 0 0 0 0 1 Q-", "extendSelf", "extendGeoms 1 " + g, "iterNew", "iterNext 0", "iterNext 1",
              "writeCharges 0 V2 1 2", "writeCoords 1 C2 1 1 1 2 2 2", "scale 2 0", "loop", "nestedLoop", "dump 2", "read 1", "slice - - -1",
              "translate V3 1 0 0", "ctorCopy", "serialise", "swap 0", "loopKeep", "iterNextKeep 0", "readKept 0", "writeKept 1 C2 3 3 3 4 4 4",
-             "reload", "translateEach 3 V3 1 0 0 V3 0 1 0 V3 0 0 1", "translateEach 1 V3 0 0 1"]
+             "reload", "translateEach 3 V3 1 0 0 V3 0 1 0 V3 0 0 1", "translateEach 1 V3 0 0 1",
+             "readAt -2", "writeAt -3 C2 5 5 5 6 6 6", "ctorAtomsKw 2 2 c1 C2 1 0 0 0 1 0 q1 V2 1 2 ws V1 3",
+             "ctorAtomsKw 2 1 cs 2 C2 1 0 0 0 1 0 C2 0 0 0 0 0 1 - -"]
     out = []
     for seq in itertools.product(alpha, repeat=2 if quick else 3):
         out.append(["ctorAtoms 2 2"] + list(seq) + ["loop", "dump 0"])
@@ -802,15 +877,31 @@ def oracle_step(ctx, py: Py, line: str, out: str, before, history: list):
     if out == "err" and before is not None and not op.startswith("ctor"):
         if not (eq_arr(np, before[0], c) and eq_arr(np, before[1], q) and eq_arr(np, before[2], w)):
             ctx.violation("C14:failed-operation-changed-the-ensemble", f"`{line[:80]}` raised but the arrays changed", replay)
-    # every conformer is a view of its row
-    for i in range(nc):
-        try:
-            cf = e[i]
-            if not (eq_arr(np, np.array(cf.coords, dtype=float), c[i]) and eq_arr(np, np.array(cf.atomic_charges, dtype=float), q[i])):
-                ctx.violation("C14:conformer-shows-another-row", f"ens[{i}] does not show row {i}", replay)
-        except Exception as ex:  # noqa: BLE001
-            ctx.violation("C14:conformer-unreadable", f"ens[{i}] of an ensemble with {nc} conformers: {type(ex).__name__}: {ex}", replay)
-            return False
+    # every conformer is a view of its row - for EVERY integer index: -n .. n-1 are the rows (ens[-n] is row 0), anything else is an
+    # IndexError; Python ints and numpy integers alike
+    for i in range(-nc - 1, nc + 1):
+        for idx in (i, np.int64(i)) if (i + nc) % 2 == 0 else (i,):
+            isnp = not isinstance(idx, int)
+            try:
+                cf = e[idx]
+                got_c, got_q = np.array(cf.coords, dtype=float), np.array(cf.atomic_charges, dtype=float)
+            except IndexError as ex:
+                if -nc <= i < nc:
+                    ctx.violation("C14:valid-index-rejected", f"ens[{i}] of an ensemble with {nc} conformers raised IndexError: {ex}", replay)
+                    return False
+                continue
+            except Exception as ex:  # noqa: BLE001
+                if isnp and not isinstance(ex, IndexError):
+                    ctx.violation("C14:numpy-integer-index-rejected", f"ens[numpy.int64({i})] of an ensemble with {nc} conformers: {type(ex).__name__}: {ex}", replay)
+                else:
+                    ctx.violation("C14:conformer-unreadable", f"ens[{i}] of an ensemble with {nc} conformers: {type(ex).__name__}: {ex}", replay)
+                return False
+            if not -nc <= i < nc:
+                ctx.violation("C14:out-of-range-index-accepted", f"ens[{i}] of an ensemble with {nc} conformers gave a conformer", replay)
+                return False
+            if not (eq_arr(np, got_c, c[i % nc]) and eq_arr(np, got_q, q[i % nc])):
+                ctx.violation("C14:conformer-shows-another-row", f"ens[{i}] does not show row {i % nc}", replay)
+                return False
     # frame of a write through a conformer
     if out == "ok" and before is not None and op in ("writeCoords", "writeCharges", "writeAtom", "writeCharge"):
         i = int(line.split()[1])
@@ -1011,7 +1102,7 @@ def run(ctx):
             ctx.count(f)
         for r in res:
             ctx.count("outcome:" + r.split("@")[0].split(" ")[0])
-        lines.append("repaired ; " + " ; ".join(ops))
+        lines.append("repaired ; " + " ; ".join(o[:-3] if o.startswith("readAt") and o.endswith(" np") else o for o in ops))
         impl.append((ops, res, st))
         if n < 2 or (src == "random" and len(ctx.samples) < 4):
             ctx.sample({"ops": ops[:8], "outs": res[:8]})
